@@ -34,7 +34,7 @@ ASSUMPTIONS = [
 ]
 MIN_COUNTERS = {
     "quick": {"regions_sampled": 500, "draws_checked_for_membership": 300000, "uniformity_tests": 250, "discrete_enumerations": 40, "composed_regions_sampled": 400, "visible_restrictions_sampled": 10, "not_visible_restrictions_sampled": 10, "pointset_intersections_enumerated": 8},
-    "thorough": {"regions_sampled": 5000, "draws_checked_for_membership": 10000000, "uniformity_tests": 2500, "discrete_enumerations": 400, "composed_regions_sampled": 4000, "visible_restrictions_sampled": 100, "not_visible_restrictions_sampled": 100, "pointset_intersections_enumerated": 80},
+    "thorough": {"regions_sampled": 2000, "draws_checked_for_membership": 6000000, "uniformity_tests": 1200, "discrete_enumerations": 120, "composed_regions_sampled": 1500, "visible_restrictions_sampled": 60, "not_visible_restrictions_sampled": 60, "pointset_intersections_enumerated": 30},
 }
 MANIFEST_ENTRY = {
     "technique": "runtime monitoring: wrapped samplers + membership contract against a construction-data oracle; two-sample chi-square over oracle-built equal-count cells; exact enumeration of discrete samplers' RNG branches",
@@ -48,7 +48,8 @@ ALPHA = 1e-9
 
 def budgets(tier):
     # draws for fast samplers, for mesh samplers, attempt cap for generic composite samplers
-    return (4000, 320, 2600) if tier == "quick" else (20000, 2000, 14000)
+    # (+ the same two numbers for composite samplers one of whose operands is mesh-based: ~20-50 ms per attempt)
+    return (4000, 150, 2600, 150, 260) if tier == "quick" else (20000, 300, 14000, 300, 600)
 
 
 def plan(tier, seed):
@@ -56,8 +57,8 @@ def plan(tier, seed):
 
     nsh = 16 if tier == "quick" else 64
     tasks = []
-    n_prim = 3 if tier == "quick" else 30
-    n_pair = 1 if tier == "quick" else 8
+    n_prim = 3 if tier == "quick" else 20
+    n_pair = 1 if tier == "quick" else 3
     for k in ro.KINDS:
         if k in ("all", "empty", "footprint"):
             continue
@@ -114,6 +115,12 @@ def classify(check, info, case):
         return "pointset.intersect-pointset-infinite-recursion"
     if check == "sampler.error" and "ZeroDivisionError" in err and rc == "UnionRegion" and "polyline" in kinds:
         return "union.genericSampler-zero-containment-count-for-polyline-sample"
+    if check == "never-succeeds" and op == "or" and rc == "PolygonalRegion" and "polyline" in kinds:
+        return "union.piecewise-orientation-rejects-samples-outside-oriented-operand"
+    if check in ("uniformity", "never-succeeds") and "grid" in kinds and op in ("or", "sub") and rc in ("UnionRegion", "DifferenceRegion"):
+        return "grid.cell-membership-inconsistent-with-pointset-measure"
+    if info.get("pointset_ignores_z"):
+        return "pointset.intersection-sampler-ignores-height-of-planar-operand"
     if info.get("sector_circumcircle"):
         return "sector.circumcircle-radius-times-cos-half-angle"
     if info.get("sector_trunc"):
@@ -169,10 +176,13 @@ def install_wrappers(counters):
 
 # ------------------------------------------------------------------------------------------------
 def n_draws(rc, R, tier):
-    fast, mesh, cap = budgets(tier)
+    fast, mesh, cap, cmesh, ccap = budgets(tier)
     if rc in FAST:
         return fast, None
     if rc in ("IntersectionRegion", "UnionRegion", "DifferenceRegion"):
+        ops = list(getattr(R, "regions", ())) or [R.regionA, R.regionB]
+        if any(type(o).__name__ not in FAST for o in ops):
+            return cmesh, ccap
         return fast, cap  # as many as the attempt cap yields
     return mesh, None
 
@@ -294,10 +304,10 @@ def check_sampler(mon, R, O, tier, rng, label, op=None, extra=None):
     if ref is None or len(ref) < 1000:
         mon.skip("no_oracle_reference_sample")
         return
-    if len(P) < 200:
+    if len(P) < 120:
         mon.skip("too_few_draws_for_uniformity")
         return
-    kcells = int(min(32, max(4, len(P) // 60)))
+    kcells = int(min(32, max(2, len(P) // 60)))
     assign = ro.kd_cells(ref, kcells)
     cr, ncell = assign(ref)
     cp, _ = assign(P)
@@ -321,7 +331,7 @@ def check_sampler(mon, R, O, tier, rng, label, op=None, extra=None):
             f"cell around {fmt(q)} expected {expected[worst]:.0f} draws, got {pcnt[worst]}; cell around {fmt(q2)} expected {expected[over]:.0f}, got {pcnt[over]}"
             + (f"; {len(dead)} cell(s) of positive measure never hit" if len(dead) else "")
         )
-        mon.report("uniformity", what, dict(info, **_mech(mon, R, O, q, False)))
+        mon.report("uniformity", what, dict(info, **_mech(mon, R, O, q, False, ref)))
 
 
 def _pointset_members(O):
@@ -344,11 +354,15 @@ def _pointset_members(O):
     return uniq, pts[m == -1]
 
 
-def _mech(mon, R, O, p, produced):
+def _mech(mon, R, O, p, produced, ref=None):
     """mechanism probes (naming only) for a point that was wrongly produced / can never be produced"""
     out = {}
     case = mon.case
     try:
+        if produced and type(R).__name__ == "IntersectionRegion" and getattr(R, "sampler", None) is not None:
+            for X in (getattr(O, "A", None), getattr(O, "B", None)):
+                if X is not None and X.kind in ("polygon", "rect") and abs(p[2] - X.planar_z) > 1e-9 and X.fmember(np.asarray(p, float)[None])[0] == 1:
+                    out["pointset_ignores_z"] = True
         for d, X in ((case["A"], getattr(O, "A", O)), (case["B"], getattr(O, "B", None))):
             if X is None or d["kind"] != "sector":
                 continue
@@ -360,6 +374,11 @@ def _mech(mon, R, O, p, produced):
             import shapely
 
             in_poly = bool(shapely.intersects_xy(SX.polygons, float(p[0]), float(p[1])))
+            if ref is not None and ang > 2.0944 + 1e-3 and len(ref):
+                outside = ~shapely.intersects_xy(SX.polygons, ref[:, 0], ref[:, 1])
+                inref = X.nominal(ref)
+                if (outside & inref).mean() > 0.02:
+                    out["sector_trunc"] = True
             c, r = SX.circumcircle
             in_circ = math.hypot(p[0] - c[0], p[1] - c[1]) <= r
             inX = X.member(np.asarray(p, float)[None])[0] == 1
